@@ -209,7 +209,7 @@ def run(ctx):
     ctx.rule = ("one evaluation = one public call inside a random call sequence on shared objects: fingerprints of every shared argument before/after, "
                 "result vs fresh evaluation; plus one static obligation per koala function; non-trivial = calls receiving at least one array argument; "
                 "distinct by (lattice, sequence index, call)")
-    rep = effects.generate()
+    rep = core.guarded_translate(ctx, effects.generate, "T-eff", dict(functions=[], n_functions=0, n_public=0, n_atoms=0, changed=False))
     ctx.translated = [dict(effect_programs=rep["n_functions"], public=rep["n_public"], atoms=rep["n_atoms"], regenerated=rep["changed"])]
     flagged = [f for f in rep["functions"] if f["flagged"]]
     ctx.extra["static_flagged_functions"] = flagged
